@@ -130,6 +130,99 @@ Definition op_name (o : opkind) : str :=
   match o with OIncludes => s "INCLUDES" | ODash => s "DASHMATCH" | OPrefix => s "PREFIXMATCH"
              | OSuffix => s "SUFFIXMATCH" | OSubstr => s "SUBSTRINGMATCH" | OCdo => s "CDO" | OCdc => s "CDC" end.
 
+(* ------------------------------------------------------------------ letter macros U R L and the URI / UNICODE-RANGE shapes *)
+Definition mterm_rs : list (N * N) := [(32,32); (9,9); (13,13); (10,10); (12,12)]%N.
+Definition mterm_re : re := Rep (Alt (Cat (Chr 13) (Chr 10)) (Cls false mterm_rs)) 0 (Some 1%nat).
+Definition hh_re (a1 a2 : N) (x : re) : re := Alt (Cat (Chr a1) x) (Cat (Chr a2) x).
+Definition letter_re (up lo : N) (hh : re) : re :=
+  Alt (Chr up) (Alt (Chr lo) (Alt (Cat (Chr 92) (Cat (Rep (Chr 48) 0 (Some 4%nat)) (Cat hh mterm_re)))
+    (Alt (Cat (Chr 92) (Chr up)) (Cat (Chr 92) (Chr lo))))).
+Definition cC_rs : list (N * N) := [(99,99); (67,67)]%N.
+Definition U_re : re := letter_re 85 117 (hh_re 53 55 (Chr 53)).
+Definition R_re : re := letter_re 82 114 (hh_re 53 55 (Chr 50)).
+Definition L_re : re := letter_re 76 108 (hh_re 52 54 (Cls false cC_rs)).
+
+Definition url_rs : list (N * N) := [(9,9); (33,33); (35,38); (40,40); (42,91); (93,126)]%N.
+Definition urlch_re : re := Alt (Cls false url_rs) (Alt nonascii_re escape_re).
+Definition quoted_re (q : N) : re := Cat (Chr q) (Cat (str_body q) (Chr q)).
+Definition uri_rest : re :=
+  Cat (Chr 40) (Cat ws_re (Cat (Alt (Alt (quoted_re 34) (quoted_re 39)) (Rep urlch_re 0 None)) (Cat ws_re (Chr 41)))).
+Definition uri_re : re := Cat U_re (Cat R_re (Cat L_re uri_rest)).
+Definition hexq_rs : list (N * N) := [(48,57); (65,70); (97,102); (63,63)]%N.
+Definition ur_rest : re :=
+  Cat (Chr 43) (Cat (Rep (Cls false hexq_rs) 1 (Some 6%nat))
+                    (Rep (Cat (Chr 45) (Rep (Cls false hex_rs) 1 (Some 6%nat))) 0 (Some 1%nat))).
+Definition urange_re : re := Cat U_re ur_rest.
+
+(* the spellings a letter macro accepts at the start of t, as consumed lengths in the macro's priority order
+   (plain upper, plain lower, backslash + up to four zeros + two hex digits + optional terminator - longest
+   terminator first: CR LF, one white-space character, none -, backslash + upper, backslash + lower)          *)
+Record letter := { l_up : N; l_lo : N; l_hhb : N -> N -> bool }.
+Definition LU : letter := {| l_up := 85; l_lo := 117; l_hhb := fun a b => (N.eqb a 53 || N.eqb a 55) && N.eqb b 53 |}.
+Definition LR : letter := {| l_up := 82; l_lo := 114; l_hhb := fun a b => (N.eqb a 53 || N.eqb a 55) && N.eqb b 50 |}.
+Definition LL : letter := {| l_up := 76; l_lo := 108;
+                             l_hhb := fun a b => (N.eqb a 52 || N.eqb a 54) && in_ranges b cC_rs |}.
+
+Fixpoint zeros_n (n : nat) (t : str) : nat :=
+  match n, t with
+  | S n', x :: r => if N.eqb x 48 then S (zeros_n n' r) else O
+  | _, _ => O
+  end.
+Definition term_lens (t : str) : list nat :=
+  match t with
+  | c :: r => if N.eqb c 13 && match r with d :: _ => N.eqb d 10 | [] => false end then [2; 1; 0]%nat
+              else if in_ranges c mterm_rs then [1; 0]%nat else [0%nat]
+  | [] => [0%nat]
+  end.
+Definition single_len (c : N) (t : str) : list nat :=
+  match t with x :: _ => if N.eqb x c then [1%nat] else [] | [] => [] end.
+Definition bs_lit_len (c : N) (t : str) : list nat :=
+  match t with
+  | x :: y :: _ => if N.eqb x 92 && N.eqb y c then [2%nat] else []
+  | _ => []
+  end.
+Definition bs_hex_len (hhb : N -> N -> bool) (t : str) : list nat :=
+  match t with
+  | x :: r => if N.eqb x 92 then
+                let z := zeros_n 4 r in
+                match skipn z r with
+                | a :: b :: r2 => if hhb a b then map (fun n => (1 + (z + (2 + n)))%nat) (term_lens r2) else []
+                | _ => []
+                end
+              else []
+  | [] => []
+  end.
+Definition lspell (lt : letter) (t : str) : list nat :=
+  single_len (l_up lt) t ++ single_len (l_lo lt) t ++ bs_hex_len (l_hhb lt) t ++
+  bs_lit_len (l_up lt) t ++ bs_lit_len (l_lo lt) t.
+
+(* t starts with a spelling of  u r l (  : the URI production can get past its keyword *)
+Definition url_open (t : str) : bool :=
+  existsb (fun n1 => let t1 := skipn n1 t in
+    existsb (fun n2 => let t2 := skipn n2 t1 in
+      existsb (fun n3 => match skipn n3 t2 with c :: _ => N.eqb c 40 | [] => false end) (lspell LL t2))
+      (lspell LR t1)) (lspell LU t).
+(* t starts with a spelling of  u +  : the UNICODE-RANGE production can get past its keyword *)
+Definition ur_open (t : str) : bool :=
+  existsb (fun n1 => match skipn n1 t with c :: _ => N.eqb c 43 | [] => false end) (lspell LU t).
+(* neither: URI and UNICODE-RANGE cannot match, whatever follows *)
+Definition kw_free (t : str) : bool := negb (url_open t) && negb (ur_open t).
+
+(* an element that is one of the macro's spellings of the letter *)
+Definition spells (lt : letter) (e : el) : bool :=
+  match e with
+  | P c | L c => N.eqb c (l_up lt) || N.eqb c (l_lo lt)
+  | H ds _ => match skipn (zeros_n 4 ds) ds with [a; b] => l_hhb lt a b | _ => false end
+  | E _ => false
+  end.
+
+Inductive ubody := UQuoted (q : N) (els : list el) | UBare (els : list el).
+Definition ubody_text (b : ubody) : str :=
+  match b with UQuoted q els => q :: render els ++ [q] | UBare els => render els end.
+Definition url_plain (c : N) : bool := in_ranges c url_rs || N.leb 128 c.
+Definition url_cont (c : N) : bool := url_plain c || N.eqb c 92.
+Definition is_hexq (c : N) : bool := in_ranges c hexq_rs.
+
 Inductive lexeme :=
 | LIdent (dash : bool) (e0 : el) (els : list el)
 | LFunction (dash : bool) (e0 : el) (els : list el)      (* ident immediately followed by '(' *)
@@ -142,7 +235,9 @@ Inductive lexeme :=
 | LComment (seg0 : str) (st0 : nat) (gs : list cgroup)
 | LWs (xs : str)
 | LOp (o : opkind)
-| LDelim (c : N).
+| LDelim (c : N)
+| LUri (eu er el_ : el) (w1 : str) (body : ubody) (w2 : str)    (* url( w (string | url-chars) w ) *)
+| LUrange (eu : el) (a : str) (b : option str).                  (* u+hex?{1,6}(-hex{1,6})? *)
 
 Definition dash_text (d : bool) : str := if d then [45%N] else [].
 Definition ident_text (d : bool) (e0 : el) (els : list el) : str := dash_text d ++ render (e0 :: els).
@@ -161,6 +256,8 @@ Definition text (l : lexeme) : str :=
   | LWs xs => xs
   | LOp o => op_text o
   | LDelim c => [c]
+  | LUri eu er el_ w1 body w2 => render [eu; er; el_] ++ 40%N :: w1 ++ ubody_text body ++ w2 ++ [41%N]
+  | LUrange eu a b => render_el eu ++ 43%N :: a ++ match b with Some bs => 45%N :: bs | None => [] end
   end.
 
 (* name of the production that recognises the lexeme *)
@@ -170,6 +267,7 @@ Definition cls (l : lexeme) : str :=
   | LNum _ => s "NUMBER" | LPct _ => s "PERCENTAGE" | LDim _ _ _ _ => s "DIMENSION"
   | LStr _ _ => s "STRING" | LComment _ _ _ => s "COMMENT" | LWs _ => s "S"
   | LOp o => op_name o | LDelim _ => s "CHAR"
+  | LUri _ _ _ _ _ _ => s "URI" | LUrange _ _ _ => s "UNICODE-RANGE"
   end.
 
 (* (type, value) of a token whose production is `name` and whose text is `found`
@@ -187,15 +285,16 @@ Definition tokval (name found : str) : str * str :=
 Definition classify (l : lexeme) : str * str := tokval (cls l) (text l).
 
 (* ---- well-formedness of a lexeme relative to the text that follows (adjacency) ---- *)
-(* no-dash identifiers starting with u / U / an escape compete with URI and UNICODE-RANGE.  Covered by the
-   theorems: a plain u / U whose next character is not r, R, a backslash or '+' (u_safe); identifiers
-   beginning ur..., u\..., or with an escape: finite sweep only *)
+(* no-dash identifiers / function names starting with u, U or an escape compete with URI and UNICODE-RANGE, which
+   come first in the production list: the name wins exactly when neither keyword can be read at the start of the
+   text (kw_free: no spelling of  u r l (  and no spelling of  u + ).  LexemeUri.ident_kw_free discharges this for
+   every identifier that is not followed by '(' or '+'.                                                        *)
 Definition u_safe (nxt : str) : bool :=
   hd_not (fun c => N.eqb c 82 || N.eqb c 114 || N.eqb c 92 || N.eqb c 43) nxt.
 Definition first_plain_ok (d : bool) (e0 : el) (nxt : str) : bool :=
   d || match e0 with
-       | P c => if N.eqb c 85 || N.eqb c 117 then u_safe nxt else true
-       | _ => false
+       | P c => if N.eqb c 85 || N.eqb c 117 then kw_free (render_el e0 ++ nxt) else true
+       | _ => kw_free (render_el e0 ++ nxt)
        end.
 
 Definition wf_ident (d : bool) (e0 : el) (els : list el) (rest : str) : bool :=
@@ -241,6 +340,7 @@ Definition ctx_delim_ok (c : N) (rest : str) : bool :=
   else if N.eqb c 35 then hd_not nm_cont rest                            (* not a hash *)
   else if N.eqb c 45 then negb (nmstart_at rest) && hd_not is_dig rest && negb (dot_digit rest) &&
                           negb (starts (s "->") rest)                    (* not ident / number / CDC *)
+  else if N.eqb c 92 then match rest with c2 :: _ => is_nlc c2 | [] => true end   (* not an escape *)
   else false.
 
 Definition ok_follow (l : lexeme) (rest : str) : bool :=
@@ -261,4 +361,23 @@ Definition ok_follow (l : lexeme) (rest : str) : bool :=
   | LWs xs => negb (Nat.eqb (length xs) 0) && forallb is_ws xs && hd_not is_ws rest
   | LOp o => true
   | LDelim c => fast c || mem c pure_delims || ctx_delim_ok c rest
+  | LUri eu er el_ w1 body w2 =>
+      spells LU eu && spells LR er && spells LL el_ &&
+      wf_els (fun _ => true) false [eu; er; el_] (40%N :: w1 ++ ubody_text body ++ w2 ++ 41%N :: rest) &&
+      forallb is_ws w1 && forallb is_ws w2 &&
+      match body with
+      | UQuoted q els => (N.eqb q 34 || N.eqb q 39) && wf_els (str_plain q) true els (q :: w2 ++ 41%N :: rest)
+      | UBare els => wf_els url_plain false els (w2 ++ 41%N :: rest) &&
+                     hd_not is_ws (render els ++ w2 ++ 41%N :: rest) &&   (* white space belongs to w1 *)
+                     hd_not url_cont (w2 ++ 41%N :: rest)                   (* a tab after the url would be a url char *)
+      end
+  | LUrange eu a b =>
+      spells LU eu && wf_el (fun _ => true) false eu (43%N :: a) &&
+      Nat.leb 1 (length a) && Nat.leb (length a) 6 && forallb is_hexq a &&
+      match b with
+      | Some bs => Nat.leb 1 (length bs) && Nat.leb (length bs) 6 && forallb is_hex bs &&
+                   (Nat.eqb (length bs) 6 || hd_not is_hex rest)
+      | None => (Nat.eqb (length a) 6 || hd_not is_hexq rest) &&
+                negb (match rest with 45%N :: h :: _ => is_hex h | _ => false end)
+      end
   end.
